@@ -81,7 +81,12 @@ def cases(tier, seed, shard, nshards):
             # inner siblings get afterwards is not the tee's doing.  Only outer consumers are cancelled here
             case["cancel_task"] = rng.randrange(case["n"] - 1) if case["n"] > 1 else None
         case["abandon_on_cancel"] = rng.random() < 0.4
-        case["flav"] = "async_class"
+        # (the eager-start flavour takes its item when __anext__ is CALLED: a fetch begun outside the lock, or begun
+        # and then dropped, shows as two consumers inside the source / a lost item)
+        # (... and it is NOT cancellation safe - a cancelled request has taken its item for good - so it is used only
+        # in scenarios without a cancelled consumer)
+        case["flav"] = rng.choice(["async_class", "async_class", "async_class_eagerstart"]) \
+            if case["cancel_task"] is None else "async_class"
         # locks that are a scheduling point before acquiring / after having released
         case["lock_susp"] = rng.choice([[0, 0], [0, 0], [1, 0], [0, 1], [1, 1]]) if case["lock"] else [0, 0]
         case["seed"] = rng.randrange(1 << 30)
